@@ -29,7 +29,8 @@ func Bin() string {
 type Ports struct{ Ingress, Pull, Admin int }
 
 var portMu sync.Mutex
-var nextPort = 21000 + (os.Getpid()%400)*50
+// below the kernel's ephemeral range (32768+), which client connections draw their source ports from
+var nextPort = 10000 + (os.Getpid()%300)*60
 
 // FreePorts hands out three loopback ports that are free right now.
 func FreePorts() (Ports, error) {
@@ -39,8 +40,8 @@ func FreePorts() (Ports, error) {
 	for tries := 0; len(got) < 3 && tries < 500; tries++ {
 		p := nextPort
 		nextPort++
-		if nextPort > 60000 {
-			nextPort = 21000
+		if nextPort > 30000 {
+			nextPort = 10000
 		}
 		ln, err := net.Listen("tcp", fmt.Sprintf("127.0.0.1:%d", p))
 		if err != nil {
@@ -56,6 +57,7 @@ func FreePorts() (Ports, error) {
 }
 
 type Proc struct {
+	Template string
 	Dir     string
 	Cfg     string
 	DB      string
@@ -123,10 +125,43 @@ func New(dir string, cfgText string) (*Proc, error) {
 	}
 	p := &Proc{Dir: dir, Cfg: filepath.Join(dir, "Hookaidofile"), DB: filepath.Join(dir, "hookaido.db"), PIDFile: filepath.Join(dir, "hookaido.pid"), Ports: ports, LogPath: filepath.Join(dir, "hookaido.log"),
 		Client: &http.Client{Timeout: 10 * time.Second, Transport: &http.Transport{MaxIdleConnsPerHost: 16}}}
+	p.Template = cfgText
 	if err := p.WriteConfig(cfgText); err != nil {
 		return nil, err
 	}
 	return p, nil
+}
+
+// StartHealthy starts the process and waits for health; when a listener cannot
+// bind (port taken meanwhile) it picks new ports, rewrites the config from the
+// template and tries again. The config file must still be the template's.
+func (p *Proc) StartHealthy(o StartOpts, d time.Duration) error {
+	var err error
+	for try := 0; try < 4; try++ {
+		if err = p.Start(o); err != nil {
+			return err
+		}
+		if err = p.WaitHealthy(d); err == nil {
+			return nil
+		}
+		if !strings.Contains(err.Error(), "address already in use") {
+			return err
+		}
+		p.Kill()
+		ports, perr := FreePorts()
+		if perr != nil {
+			return perr
+		}
+		cur, _ := os.ReadFile(p.Cfg)
+		if string(cur) != p.Expand(p.Template) {
+			return err // the file was rewritten by the system under test: do not touch it
+		}
+		p.Ports = ports
+		if werr := p.WriteConfig(p.Template); werr != nil {
+			return werr
+		}
+	}
+	return err
 }
 
 func (p *Proc) Expand(cfgText string) string {
